@@ -323,6 +323,38 @@ pub fn san(p: &Pos, legal: &[Mv], m: Mv) -> String {
     s
 }
 
+/// What a player would write for a pseudo-legal move without thinking about legality: piece
+/// letter, capture mark, destination, promotion - no disambiguation, no check marks
+pub fn san_naive(p: &Pos, m: Mv) -> String {
+    if m.flag == 3 {
+        return "O-O".to_string();
+    }
+    if m.flag == 4 {
+        return "O-O-O".to_string();
+    }
+    let k = kind(p.b[m.from as usize]);
+    let capture = p.is_capture(m);
+    let mut s = String::new();
+    if k == P {
+        if capture {
+            s.push((b'a' + m.from % 8) as char);
+            s.push('x');
+        }
+        s.push_str(&sq_name(m.to as usize));
+        if m.promo != 0 {
+            s.push('=');
+            s.push(piece_letter(m.promo));
+        }
+    } else {
+        s.push(piece_letter(k));
+        if capture {
+            s.push('x');
+        }
+        s.push_str(&sq_name(m.to as usize));
+    }
+    s
+}
+
 /// What a SAN-like text says about the move, read permissively.
 #[derive(Clone, Debug, PartialEq, Eq)]
 pub enum Desc {
